@@ -39,6 +39,12 @@ CLAIMED.update({
     'C09': ('Every integer attribute of every meta type symbolic over +-2^40: accepted iff documented, wire layout against an '
             'arithmetic SMF reference, from_bytes and read_meta_message both give back an equal message; denominator symbolic over '
             '320-bit integers; VLQ over +-2^40; payload length of from_bytes symbolic up to 2^21; key table, text boundary lengths.', '4/C09'),
+    'C07': ('Real save -> real load on symbolic files: every ordered pair of 37 message kinds (attributes symbolic, running status '
+            'triggered/broken by the solver), delta times symbolic up to 2^28 (2^35), headers, payload-length boundaries, refusal '
+            'cases, and the load-save-load fixed point for every track body of <=5 (thorough 6) arbitrary bytes.', '4/C07'),
+    'C08': ('The bytes written by the real save() are decoded by an independent reference SMF decoder (minimal VLQs, legal running '
+            'status only, exact chunk lengths, closing FF 2F 00) and must give back the in-memory events; the real loader is run on '
+            'reference encodings with symbolic legal alternatives (running status, padded VLQs, long header) incl. debug and clip.', '4/C08'),
 })
 
 PENDING = {}     # id -> reason (not claimed)
